@@ -159,14 +159,16 @@ class RetractionState(CommonMixin):
         else:
             amount = self.extrusionAmount * direction
             eAxis = position.E_AXIS
-            eAxis.current += amount
+            # Restored below as it is: (current + amount) - amount may differ from it by round-off
+            current = eAxis.current
+            eAxis.current = current + amount
 
             returnCommands.append(
                 # Set logical extruder position
                 "G92 E{e}".format(e=formatNumber(eAxis.nativeToLogical()))
             )
 
-            eAxis.current -= amount
+            eAxis.current = current
 
             # Use "G1" over "G0", since an extrusion amount is being supplied
             returnCommands.append(
